@@ -1,10 +1,10 @@
 SPECIFICATION Spec
 CONSTANTS
   FSKinds = {"std", "mem", "rec"}
-  PathIds = {1, 3, 6}
+  PathIds = {3, 6}
   Vals = {2, 5}
   MaxRecs = 2
-  MemPaths = {1, 3, 6}
+  MemPaths = {3, 6}
   Avoid = {}
   Mirror = FALSE
   MaxLevel = 6
